@@ -36,14 +36,17 @@ WATCHDOG_S = {"quick": 900, "thorough": 3400}
 SHARD_BUDGET_S = {"quick": 40, "thorough": 600}
 
 OPS = ("mul", "rmul", "add", "eq", "x", "y", "to_affine", "scale", "double", "neg", "mul_add", "pickle", "verify", "precompute", "precompute_lazy", "sign", "to_string", "mulS", "addGS",
-       "pickleS", "to_affineG", "scaleG", "xS", "yG", "pickle_vk", "mul_addQ", "verify2", "copy_vk", "deepcopy_sk", "to_affineQ2", "mul_add_rev", "negS", "addSG", "sign_other_hash", "sign_default_hash", "verify_default_hash")
+       "pickleS", "to_affineG", "scaleG", "xS", "yG", "pickle_vk", "mul_addQ", "verify2", "copy_vk", "deepcopy_sk", "to_affineQ2", "mul_add_rev", "negS", "addSG", "sign_other_hash", "sign_default_hash", "verify_default_hash", "verify_bad")
 
 
 DIRECTED = [("pickle", "to_affineG"), ("pickle", "scaleG"), ("pickleS", "to_affine"), ("pickleS", "scale"), ("pickle", "mul"), ("pickle", "mul_add"),
             ("pickle_vk", "precompute"), ("pickle_vk", "verify"), ("to_affineG", "x"), ("scaleG", "yG"), ("to_affine", "y"), ("scale", "xS"),
             ("mul", "rmul"), ("precompute_lazy", "verify"), ("eq", "scaleG"), ("addGS", "to_affine"), ("to_affineG", "to_affineG"), ("scale", "scale"),
             ("sign_other_hash", "sign_default_hash"), ("sign_default_hash", "sign_other_hash"), ("sign_other_hash", "verify_default_hash"), ("precompute", "verify"), ("verify", "precompute"),
-            ("mul_add", "mul_add_rev"), ("mul_add_rev", "mul_add"), ("negS", "scale"), ("scale", "negS"), ("addGS", "addSG"), ("mul_add", "mul_addQ"), ("verify", "verify2"), ("copy_vk", "sign"), ("deepcopy_sk", "verify"), ("copy_vk", "mul"), ("to_affine", "to_affineQ2"), ("to_affineQ2", "to_affineQ2")]
+            ("mul_add", "mul_add_rev"), ("mul_add_rev", "mul_add"), ("negS", "scale"), ("scale", "negS"), ("addGS", "addSG"), ("mul_add", "mul_addQ"), ("verify", "verify2"), ("copy_vk", "sign"), ("deepcopy_sk", "verify"), ("copy_vk", "mul"), ("to_affine", "to_affineQ2"), ("to_affineQ2", "to_affineQ2"),
+            # the same operation with DIFFERENT arguments on one shared object, and a genuine next to a forged signature on one key: whatever an
+            # operation remembers about "the last call" is written by both threads; the re-execution after the run asks again
+            ("mulS", "mulS"), ("verify", "verify_bad"), ("verify_bad", "verify"), ("mulS", "mul_add_rev")]
 
 
 def monitored_codes():
@@ -189,6 +192,8 @@ class Scenario(object):
             return cv.add(Sp, G)
         if op == "verify2":
             return True
+        if op == "verify_bad":
+            return False
         if op == "copy_vk":
             L = self.dom.pbytes()
             return (self.Qk[0].to_bytes(L, "big") + self.Qk[1].to_bytes(L, "big"), True)
@@ -304,6 +309,15 @@ def perform(sh, sc, op, arg, arg2):
         return pickle.loads(pickle.dumps(sh["vk"])).to_string()
     if op == "verify":
         return sh["vk"].verify(sc.sig, sc.msg, hashfunc=sc.hf)
+    if op == "verify_bad":
+        # the genuine signature of the scenario with s replaced by s + 1 (or 1): in range, well-formed, wrong
+        import ecdsa as _e
+        L_ = len(sc.sig) // 2
+        s_bad = (int.from_bytes(sc.sig[L_:], "big") + 1) % sc.dom.n or 1
+        try:
+            return sh["vk"].verify(sc.sig[:L_] + s_bad.to_bytes(L_, "big"), sc.msg, hashfunc=sc.hf)
+        except _e.BadSignatureError:
+            return False
     if op in ("precompute", "precompute_lazy"):
         sh["vk"].precompute(lazy=(op == "precompute_lazy"))
         pt = sh["vk"].pubkey.point
@@ -315,7 +329,7 @@ def perform(sh, sc, op, arg, arg2):
     raise ValueError(op)
 
 
-OPCLS = {"sign_other_hash": "sign", "sign_default_hash": "sign", "verify_default_hash": "verify", "mul_add_rev": "mul_add", "negS": "neg", "addSG": "add", "mul_addQ": "mul_add", "verify2": "verify", "copy_vk": "pickle", "deepcopy_sk": "pickle", "to_affineQ2": "to_affine", "mul": "mul", "rmul": "mul", "mulS": "mul", "add": "add", "addGS": "add", "precompute_lazy": "precompute", "pickleS": "pickle", "pickle_vk": "pickle",
+OPCLS = {"verify_bad": "verify", "sign_other_hash": "sign", "sign_default_hash": "sign", "verify_default_hash": "verify", "mul_add_rev": "mul_add", "negS": "neg", "addSG": "add", "mul_addQ": "mul_add", "verify2": "verify", "copy_vk": "pickle", "deepcopy_sk": "pickle", "to_affineQ2": "to_affine", "mul": "mul", "rmul": "mul", "mulS": "mul", "add": "add", "addGS": "add", "precompute_lazy": "precompute", "pickleS": "pickle", "pickle_vk": "pickle",
          "to_affineG": "to_affine", "scaleG": "scale", "xS": "x", "yG": "y"}
 
 
